@@ -98,3 +98,4 @@ Example C04_set_monitor_delegated_hypothesis_satisfiable :
   going_keys_nodup x_del_case = true /\
   map ev_key (members (set_obs_s x_del_case (SetCorr.model_run x_del_case))) = [x_key 1 1].
 Proof. exact m04d_hypothesis_satisfiable. Qed.
+Print Assumptions C04_set_monitor_delegated_hypothesis_satisfiable.
